@@ -321,6 +321,18 @@ protected:
     }
   }
 
+  // ── Connection Gone ────────────────────────────────────────────────────
+
+  /// \brief The TCP connection ended (with or without a close handshake): drop
+  /// the per-session state. Without this a peer that vanished without sending a
+  /// Close frame left its WsSessionState — receive buffer and fragment buffer
+  /// included — in _sessions forever, and isSessionActive() kept answering true.
+  void onSessionClosed(SessionId sid) override
+  {
+    std::lock_guard<std::mutex> lock(_wsMutex);
+    _sessions.erase(sid);
+  }
+
 private:
   /// \brief Fail the WebSocket connection (RFC 6455 Section 7.1.7): send a Close
   /// frame with the given code, report the error, drop the per-session state
